@@ -35,7 +35,9 @@ RULE_ADDED = (
               'Round 15: a transaction and its own cleared form, both with one compact size wri'
               'tten the long way, are relayed alike. '
               ' '
-              'Round 16: outpoints that read like something special (null outpoint, all ones). ')
+              'Round 16: outpoints that read like something special (null outpoint, all ones). '
+              ' '
+              'Round 20: script-sigs of 9..1001 operations (10% of the scripts). ')
 RULE = RULE + " " + RULE_ADDED.strip()
 ASSUMPTIONS = [
     "comm/bitcoin.py is exercised composed with the bitcoin.core shim in pv/shims "
